@@ -464,6 +464,7 @@ fn gen_c09(cfg: &GenCfg, rng: &mut Rng, w: &mut dyn Write, _kind: &str) {
         pool.push("ze".into());
         pool.push("zb".into());
         let mut k = 0;
+        let mut past: Vec<String> = Vec::new();
         for step in 0..(if cfg.thorough { 120 } else { 60 }) {
             let name = format!("g{}", step);
             match rng.below(12) {
@@ -471,14 +472,27 @@ fn gen_c09(cfg: &GenCfg, rng: &mut Rng, w: &mut dyn Write, _kind: &str) {
                     let add = rng.range(1, 2) as u32;
                     writeln!(w, "addvars {}", add).unwrap();
                     n += add;
+                    // repeat earlier operations on the same (still live) operands: a memoised
+                    // result from before the addition must not be served if it is no longer valid
+                    for (i, l) in past.iter().rev().take(6).enumerate() {
+                        writeln!(w, "{}", l.replace("@", &format!("rep{}_{}", step, i))).unwrap();
+                    }
                     continue;
                 }
                 1 => writeln!(w, "singleton {} {}", name, rng.below(n as u64)).unwrap(),
                 2 => writeln!(w, "var {} {}", name, rng.below(n as u64)).unwrap(),
                 3 => writeln!(w, "const {} T", name).unwrap(),
                 4 => writeln!(w, "{} {} {} {}", rng.pick(&["subset0", "subset1", "change"]), name, rng.pick(&pool), rng.below(n as u64)).unwrap(),
-                5 => writeln!(w, "op {} not {}", name, rng.pick(&pool)).unwrap(),
-                6 => writeln!(w, "op {} {} {} {}", name, rng.pick(&BIN_OPS), rng.pick(&pool), rng.pick(&pool)).unwrap(),
+                5 => {
+                    let l = format!("op @ not {}", rng.pick(&pool));
+                    writeln!(w, "{}", l.replace("@", &name)).unwrap();
+                    past.push(l);
+                }
+                6 => {
+                    let l = format!("op @ {} {} {}", rng.pick(&BIN_OPS), rng.pick(&pool), rng.pick(&pool));
+                    writeln!(w, "{}", l.replace("@", &name)).unwrap();
+                    past.push(l);
+                }
                 7 => {
                     k += 1;
                     let mut l = format!("cube k{}", k);
@@ -490,11 +504,244 @@ fn gen_c09(cfg: &GenCfg, rng: &mut Rng, w: &mut dyn Write, _kind: &str) {
                         }
                     }
                     writeln!(w, "{}", l).unwrap();
-                    writeln!(w, "restrict {} {} k{}", name, rng.pick(&pool), k).unwrap();
+                    let f = rng.pick(&pool).clone();
+                    writeln!(w, "restrict {} {} k{}", name, f, k).unwrap();
+                    past.push(format!("restrict @ {} k{}", f, k));
                 }
-                _ => writeln!(w, "{} {} {} {}", rng.pick(&["union", "intsec", "diff"]), name, rng.pick(&pool), rng.pick(&pool)).unwrap(),
+                _ => {
+                    let l = format!("{} @ {} {}", rng.pick(&["union", "intsec", "diff"]), rng.pick(&pool), rng.pick(&pool));
+                    writeln!(w, "{}", l.replace("@", &name)).unwrap();
+                    past.push(l);
+                }
             }
             pool.push(name);
+        }
+    }
+}
+
+/// knobs of the random history generator
+struct Hist {
+    steps: usize,
+    /// emit `dump` (reference counts of all stored nodes) every k steps (0 = never)
+    dump_every: usize,
+    audit_every: usize,
+    count_every: usize,
+    nodes_every: usize,
+    reorder: bool,
+    addvars: bool,
+    gc_prob: u64,
+    quant: bool,
+}
+
+/// one random history: a pool of live handles, operations, clone/drop, gc, add_vars, set_var_order
+fn history(w: &mut dyn Write, rng: &mut Rng, kind: &str, mut n: u32, hcfg: &Hist, max_n: u32) {
+    let z = zbdd(kind);
+    let mut pool: Vec<String> = Vec::new();
+    let mut next = 0usize;
+    let mut fresh = |pool: &mut Vec<String>| {
+        next += 1;
+        let name = format!("h{}", next);
+        pool.push(name.clone());
+        name
+    };
+    for v in 0..n {
+        let name = fresh(&mut pool);
+        writeln!(w, "var {} {}", name, v).unwrap();
+    }
+    let quants = ["forall", "exists", "unique"];
+    let mut nsub = 0;
+    for step in 0..hcfg.steps {
+        if pool.len() < 2 {
+            let name = fresh(&mut pool);
+            writeln!(w, "{} {} {}", if rng.chance(1, 2) { "var" } else { "notvar" }, name, rng.below(n as u64)).unwrap();
+            let name = fresh(&mut pool);
+            writeln!(w, "const {} {}", name, if rng.chance(1, 2) { "T" } else { "F" }).unwrap();
+        }
+        let k = rng.below(100);
+        if k < 38 {
+            let name = fresh(&mut pool);
+            let (a, b) = (rng.pick(&pool[..pool.len() - 1]).clone(), rng.pick(&pool[..pool.len() - 1]).clone());
+            writeln!(w, "op {} {} {} {}", name, rng.pick(&BIN_OPS), a, b).unwrap();
+        } else if k < 43 {
+            let name = fresh(&mut pool);
+            let a = rng.pick(&pool[..pool.len() - 1]).clone();
+            writeln!(w, "op {} not {}", name, a).unwrap();
+        } else if k < 50 {
+            let name = fresh(&mut pool);
+            let m = pool.len() - 1;
+            let (a, b, c) = (rng.pick(&pool[..m]).clone(), rng.pick(&pool[..m]).clone(), rng.pick(&pool[..m]).clone());
+            writeln!(w, "op {} ite {} {} {}", name, a, b, c).unwrap();
+        } else if k < 56 && n <= 5 {
+            // rebuild a live function from its truth table by another route is done by the
+            // scenario's canonicity oracle; here: a fresh random function by route A or B
+            let name = fresh(&mut pool);
+            let bits = 1u32 << n;
+            let val: u128 = if bits >= 128 { (rng.next() as u128) << 64 | rng.next() as u128 } else { ((rng.next() as u128) << 64 | rng.next() as u128) & ((1u128 << bits) - 1) };
+            writeln!(w, "{} {} {:x}", if rng.chance(1, 2) { "tt" } else { "ttb" }, name, val).unwrap();
+        } else if k < 62 && hcfg.quant && !z {
+            let cube = fresh(&mut pool);
+            let mut l = format!("cube {}", cube);
+            for v in 0..n {
+                if rng.chance(1, 3) {
+                    l.push_str(&format!(" +{}", v));
+                }
+            }
+            writeln!(w, "{}", l).unwrap();
+            let name = fresh(&mut pool);
+            let m = pool.len() - 2;
+            if rng.chance(1, 2) {
+                writeln!(w, "quant {} {} {} {}", name, rng.pick(&quants), rng.pick(&pool[..m]), cube).unwrap();
+            } else {
+                writeln!(w, "applyq {} {} {} {} {} {}", name, rng.pick(&quants), rng.pick(&BIN_OPS), rng.pick(&pool[..m]), rng.pick(&pool[..m]), cube).unwrap();
+            }
+        } else if k < 66 && hcfg.quant {
+            let cube = fresh(&mut pool);
+            let mut l = format!("cube {}", cube);
+            for v in 0..n {
+                match rng.below(4) {
+                    0 => l.push_str(&format!(" +{}", v)),
+                    1 => l.push_str(&format!(" -{}", v)),
+                    _ => {}
+                }
+            }
+            writeln!(w, "{}", l).unwrap();
+            let name = fresh(&mut pool);
+            let m = pool.len() - 2;
+            if rng.chance(1, 2) {
+                writeln!(w, "restrict {} {} {}", name, rng.pick(&pool[..m]), cube).unwrap();
+            } else {
+                writeln!(w, "pickset {} {} {}", name, rng.pick(&pool[..m]), cube).unwrap();
+            }
+        } else if k < 69 && hcfg.quant && !z {
+            nsub += 1;
+            let mut m = format!("mksubst s{}", nsub);
+            let mut any = false;
+            for v in 0..n {
+                if rng.chance(1, 3) {
+                    m.push_str(&format!(" {}={}", v, rng.pick(&pool)));
+                    any = true;
+                }
+            }
+            if !any {
+                m.push_str(&format!(" 0={}", rng.pick(&pool)));
+            }
+            writeln!(w, "{}", m).unwrap();
+            let a = rng.pick(&pool).clone();
+            let name = fresh(&mut pool);
+            writeln!(w, "subst {} {} s{}", name, a, nsub).unwrap();
+            writeln!(w, "dropsubst s{}", nsub).unwrap();
+        } else if k < 72 {
+            let a = rng.pick(&pool).clone();
+            let name = fresh(&mut pool);
+            writeln!(w, "pick {} {} {:0width$b}", name, a, rng.below(1 << n), width = n as usize).unwrap();
+        } else if k < 77 {
+            let a = rng.pick(&pool).clone();
+            let name = fresh(&mut pool);
+            writeln!(w, "clone {} {}", name, a).unwrap();
+        } else if k < 90 {
+            let i = rng.below(pool.len() as u64) as usize;
+            let name = pool.swap_remove(i);
+            writeln!(w, "drop {}", name).unwrap();
+        } else if k < 90 + hcfg.gc_prob {
+            writeln!(w, "gc").unwrap();
+        } else if k < 96 && hcfg.addvars && n < max_n {
+            let add = rng.range(1, 2) as u32;
+            writeln!(w, "addvars {}", add).unwrap();
+            n += add;
+        } else if k < 99 && hcfg.reorder && !z {
+            let mut order: Vec<u32> = (0..n).collect();
+            rng.shuffle(&mut order);
+            writeln!(w, "order {}", order_str(&order)).unwrap();
+        } else {
+            let (a, b) = (rng.pick(&pool).clone(), rng.pick(&pool).clone());
+            writeln!(w, "eq {} {}", a, b).unwrap();
+        }
+        if hcfg.nodes_every != 0 && step % hcfg.nodes_every == 0 {
+            writeln!(w, "nodes").unwrap();
+        }
+        if hcfg.dump_every != 0 && step % hcfg.dump_every == 0 {
+            writeln!(w, "dump").unwrap();
+        }
+        if hcfg.audit_every != 0 && step % hcfg.audit_every == 0 {
+            writeln!(w, "audit").unwrap();
+        }
+        if hcfg.count_every != 0 && step % hcfg.count_every == 0 {
+            writeln!(w, "count {}", rng.pick(&pool)).unwrap();
+        }
+    }
+    // drop everything: the manager must return to its initial node count (C05)
+    writeln!(w, "dropall").unwrap();
+    writeln!(w, "gc").unwrap();
+    writeln!(w, "dump").unwrap();
+}
+
+fn gen_hist(cfg: &GenCfg, rng: &mut Rng, w: &mut dyn Write, kind: &str, suite: &str) {
+    let cases = match (suite, cfg.thorough) {
+        (_, false) => 40,
+        (_, true) => 600,
+    } * cfg.scale;
+    for c in 0..cases {
+        let n = if c % 3 == 0 { 3 } else { rng.range(2, 5) as u32 };
+        let threads = *rng.pick(&[1u32, 1, 1, 4]);
+        let cache = *rng.pick(&[1usize, 2, 16, 65536]);
+        let hcfg = match suite {
+            "c01" => Hist { steps: if cfg.thorough { 300 } else { 200 }, dump_every: 0, audit_every: 0, count_every: 10, nodes_every: 0, reorder: true, addvars: true, gc_prob: 3, quant: true },
+            "c03" => Hist { steps: if cfg.thorough { 250 } else { 150 }, dump_every: 0, audit_every: 1, count_every: 2, nodes_every: 0, reorder: true, addvars: true, gc_prob: 3, quant: true },
+            "c05" => Hist { steps: if cfg.thorough { 250 } else { 150 }, dump_every: 2, audit_every: 0, count_every: 0, nodes_every: 1, reorder: true, addvars: true, gc_prob: 5, quant: true },
+            _ => panic!("suite"),
+        };
+        writeln!(w, "case {}-{}-n{}-t{}-c{}", suite, c, n, threads, cache).unwrap();
+        writeln!(w, "mgr nodes=65536 cache={} threads={} vars={}", cache, threads, n).unwrap();
+        if rng.chance(1, 2) {
+            let mut order: Vec<u32> = (0..n).collect();
+            rng.shuffle(&mut order);
+            writeln!(w, "order {}", order_str(&order)).unwrap();
+        }
+        history(w, rng, kind, n, &hcfg, 6);
+    }
+}
+
+/// C06: the same history under cache capacities {1, 2, 16, large}; different operators on the
+/// same operands in sequence; gc / reorder / add_vars between repetitions
+fn gen_c06(cfg: &GenCfg, rng: &mut Rng, w: &mut dyn Write, kind: &str) {
+    let cases = if cfg.thorough { 150 } else { 14 } * cfg.scale;
+    for c in 0..cases {
+        let n = rng.range(3, 5) as u32;
+        let seed = rng.next();
+        for cache in [1usize, 2, 16, 65536] {
+            let mut r2 = Rng(seed);
+            writeln!(w, "case c06-{}-n{}-c{}", c, n, cache).unwrap();
+            writeln!(w, "mgr nodes=65536 cache={} threads=1 vars={}", cache, n).unwrap();
+            // warm-up or not: the first repetition runs on a fresh cache, later ones on a warm one
+            let hcfg = Hist { steps: if cfg.thorough { 120 } else { 80 }, dump_every: 0, audit_every: 0, count_every: 0, nodes_every: 5, reorder: true, addvars: true, gc_prob: 4, quant: true };
+            history(w, &mut r2, kind, n, &hcfg, 6);
+            // a different operator on the same operands, all ordered pairs of operators
+            for v in 0..n {
+                writeln!(w, "var y{} {}", v, v).unwrap();
+            }
+            let mut pool: Vec<String> = (0..n).map(|v| format!("y{v}")).collect();
+            for s in 0..12 {
+                let name = format!("z{s}");
+                writeln!(w, "op {} {} {} {}", name, r2.pick(&BIN_OPS), r2.pick(&pool), r2.pick(&pool)).unwrap();
+                pool.push(name);
+            }
+            for _ in 0..30 {
+                let (a, b) = (r2.pick(&pool).clone(), r2.pick(&pool).clone());
+                let (o1, o2) = (r2.pick(&BIN_OPS), r2.pick(&BIN_OPS));
+                writeln!(w, "op r1 {} {} {}", o1, a, b).unwrap();
+                writeln!(w, "op r2 {} {} {}", o2, a, b).unwrap();
+                writeln!(w, "op r3 {} {} {}", o1, a, b).unwrap();
+                match r2.below(6) {
+                    0 => writeln!(w, "gc").unwrap(),
+                    1 if !zbdd(kind) => {
+                        let mut order: Vec<u32> = (0..n).collect();
+                        r2.shuffle(&mut order);
+                        writeln!(w, "order {}", order_str(&order)).unwrap();
+                    }
+                    _ => {}
+                }
+                writeln!(w, "op r4 {} {} {}", o2, a, b).unwrap();
+            }
         }
     }
 }
@@ -504,6 +751,8 @@ fn generate(cfg: &GenCfg, rng: &mut Rng, w: &mut dyn Write) {
     let suite = cfg.extra.get("suite").map(|s| s.as_str()).unwrap_or("c02").to_string();
     match suite.as_str() {
         "c02" => gen_c02(cfg, rng, w, &kind),
+        "c01" | "c03" | "c05" => gen_hist(cfg, rng, w, &kind, &suite),
+        "c06" => gen_c06(cfg, rng, w, &kind),
         "c04" => gen_c04(cfg, rng, w, &kind),
         "c09" => gen_c09(cfg, rng, w, &kind),
         "c12" => gen_c12(cfg, rng, w, &kind),
